@@ -1,0 +1,64 @@
+//go:build verif
+// +build verif
+
+// Package verifhook provides named failpoints for the verification harness.
+// With the "verif" build tag a harness can install a callback that is invoked at every
+// point (and may panic to simulate the death of the process at that point), or let the
+// process exit before the k-th point via the environment (VERIF_CRASH_AT=k).
+package verifhook
+
+import (
+	"fmt"
+	"os"
+	"strconv"
+	"sync"
+)
+
+var (
+	mtx      sync.Mutex
+	callback func(name string)
+	count    int
+	crashAt  = -1
+	trace    = os.Getenv("VERIF_CRASH_TRACE") != ""
+)
+
+func init() {
+	if s := os.Getenv("VERIF_CRASH_AT"); s != "" {
+		if k, err := strconv.Atoi(s); err == nil {
+			crashAt = k
+		}
+	}
+}
+
+// Set installs (or with nil removes) the callback invoked at every point.
+func Set(f func(name string)) {
+	mtx.Lock()
+	callback = f
+	mtx.Unlock()
+}
+
+// Count returns the number of points passed so far.
+func Count() int {
+	mtx.Lock()
+	defer mtx.Unlock()
+	return count
+}
+
+// Point marks a place where the verification harness may interrupt execution.
+func Point(name string) {
+	mtx.Lock()
+	count++
+	c := count
+	f := callback
+	mtx.Unlock()
+	if trace {
+		fmt.Fprintf(os.Stderr, "VERIF_POINT %d %s\n", c, name)
+	}
+	if crashAt >= 0 && c == crashAt {
+		fmt.Fprintf(os.Stderr, "VERIF_CRASH at point %d %s\n", c, name)
+		os.Exit(77)
+	}
+	if f != nil {
+		f(name)
+	}
+}
